@@ -1360,6 +1360,16 @@ class Tensor:
                         f"`grad` must be broadcast-compatible with `tensor.shape={self.shape}`\n"
                         f"Got `grad.shape={_grad.shape}`"
                     )
+            if _grad.base is not None or not (
+                (_grad.flags.c_contiguous and self.data.flags.c_contiguous)
+                or (_grad.flags.f_contiguous and self.data.flags.f_contiguous)
+            ):
+                # Views of `self` locate their gradients as views of this array: it must
+                # own its memory (not be, e.g., a slice of the caller's array) and have
+                # the memory layout of the tensor's data
+                _tmp = np.empty_like(self.data)
+                _tmp[...] = _grad
+                _grad = _tmp
         else:
             _grad = np.full_like(self.data, fill_value=1.0)
 
